@@ -82,6 +82,34 @@ CLAIMS = {
         "spans, graph-set keys and types. Correspondence: bounds and runs on 1500+ random columns.",
    technique="Lean 4 proof (induction over the code-shaped segmentation loops, partial) + correspondence testing + two-way curve/column oracle on service output",
    design="§6 C13"),
+ "C14": dict(
+   text="Partial proof (Lean 4). Totality of the service (numpy / pydantic / scipy code) is not carried by a model; proved are the "
+        "structural facts behind the failures found, regenerated from the live package on every run (AST walk + live objects): "
+        "config_reads_defined (every configuration attribute any module reads has a default - the P_TURBINE_BOX AttributeError "
+        "was exactly a violation), every_zone_type_has_a_handler, cascade_total (the cascade model returns targets with Qh >= 0 on "
+        "every compatible grid for ANY streams, C01). Decided by the oracle on the service: 260+ schema-valid problems per run "
+        "over the degenerate shapes (single stream, only hot / only cold, isothermal, zero contributions, duplicate names, "
+        "never-needed utilities, value-with-unit numbers, zone tree) x random subsets of the 11 boolean options wired into the "
+        "pipeline and DT_CONT / DT_PHASE_CHANGE: returns, validates and round-trips through strict JSON with finite numbers, one "
+        "direct-integration record per zone, pinch and graph temperatures inside the envelope, identical on repetition. Five "
+        "fix: commits; open findings: heat-pump targeting raises on degenerate profiles and is not repeatable, area targeting "
+        "raises on zero driving force.",
+   technique="Lean 4 proof over facts translated from the live package (config reads, handler table) + totality / well-formedness oracle over shapes x option subsets",
+   design="§6 C14"),
+ "C15": dict(
+   text="Proof (Lean 4 + Mathlib analysis) about the costing formulas, written once over an abstract arithmetic and instantiated with "
+        "Float (driver, compared with costing.py / compute_LMTD_from_dts to 1e-11 on 900+ points per run) and with the reals: "
+        "crf_annuities_sum_to_one (for every rate i > 0 and life n >= 1 the capital-recovery factor times the discounted annuities "
+        "is exactly 1: geometric series), capital_cost_formula (= N(a + b(A/N)^c), real power), capital_cost_mono / "
+        "capital_cost_strict_mono / annual_cost_mono (non-decreasing, strictly increasing for b, c > 0, in the area), "
+        "area_term_pos / area_pos (the sum over enthalpy intervals of Q R / dT_lm is positive), area_term_bounds (with the C20 "
+        "log-mean bounds each interval lies between Q R / mean and Q R / dT_min). NOT proved: that the implementation's area "
+        "target is that sum over the right intervals - decided by the oracle, which recomputes the area independently (balanced "
+        "curves rebuilt from the zone's streams and the record's utility duties, enthalpy intervals, counter-current LMTD, "
+        "duty-weighted film resistances) on 150+ random problems x film coefficients x cost parameters per run, plus equal "
+        "balanced spans, finiteness, cost laws on the record.",
+   technique="Lean 4 proof over the reals (Mathlib) on formulas shared with the Float driver + correspondence + independent area-target oracle",
+   design="§6 C15"),
  "C17": dict(
    text="Partial proof (Lean 4) about the code-shaped model of _rdp (stack ranges as a recursion with fuel = number of points, "
         "first-maximum scan with strict >, zero-length chord `continue`) for polylines of ANY length and ANY tolerance: rdp_ends "
